@@ -22,11 +22,15 @@ import (
 	"github.com/megaease/easegress/pkg/context"
 	"github.com/megaease/easegress/pkg/filters"
 	_ "github.com/megaease/easegress/pkg/filters/builder"
+	_ "github.com/megaease/easegress/pkg/filters/certextractor"
 	_ "github.com/megaease/easegress/pkg/filters/corsadaptor"
 	_ "github.com/megaease/easegress/pkg/filters/fallback"
+	_ "github.com/megaease/easegress/pkg/filters/headertojson"
+	_ "github.com/megaease/easegress/pkg/filters/meshadaptor"
 	_ "github.com/megaease/easegress/pkg/filters/mock"
 	_ "github.com/megaease/easegress/pkg/filters/proxy"
 	_ "github.com/megaease/easegress/pkg/filters/ratelimiter"
+	_ "github.com/megaease/easegress/pkg/filters/remotefilter"
 	_ "github.com/megaease/easegress/pkg/filters/requestadaptor"
 	_ "github.com/megaease/easegress/pkg/filters/responseadaptor"
 	_ "github.com/megaease/easegress/pkg/filters/validator"
